@@ -11,7 +11,8 @@ UNIVERSES = {
     3: ({1: "b", 2: 0, 3: 2.5}, {1}),
     4: ({1: "__NAN__", 2: "b", 3: 0, 4: 2.5}, {1, 2}),
     5: ({1: "__NAN__", 2: "b", 3: "c", 4: 0, 5: 2.5}, {1, 2, 3}),
-    8: ({1: "__NAN__", 2: "a", 3: "b", 4: "c10", 5: 0, 6: 1, 7: 2.5, 8: 30.0}, {1, 2, 3, 4}),
+    # code 8 is None: a missing-value sentinel that numpy cannot sort (sort() is not a valid call while it leads a group)
+    8: ({1: "__NAN__", 2: "a", 3: "b", 4: "c10", 5: 0, 6: 1, 7: 2.5, 8: None}, {1, 2, 3, 4}),
 }
 
 
@@ -34,6 +35,8 @@ class Codec:
         except TypeError:
             return -1
         # 0 == False, 1 == True : reject bools; a str must stay a str (numpy scalars are accepted)
+        if value is None:
+            return self._enc.get(None, -1)
         if c != -1 and (isinstance(value, bool) or isinstance(self.values[c], str) != isinstance(value, str)):
             return -1
         return c
